@@ -203,6 +203,55 @@ fn write_case(rt: &tokio::runtime::Runtime, compressed: bool, packets: &[Packet]
     })
 }
 
+/// (c') writes under back-pressure: small socket buffers and a server that does not read for a while, so that the transport's
+/// flush inside poll_write has to wait; the server then drains.  Every written packet must still arrive as exactly one binary
+/// message holding its frame, in order.  Returns (binary messages seen by the server, frames written, writes that had to wait).
+pub fn backpressure_case(rt: &tokio::runtime::Runtime, compressed: bool, n: usize) -> (Vec<Vec<u8>>, Vec<Vec<u8>>, usize) {
+    use insim::{identifiers::RequestId, insim::{Mst, Tiny, TinyType}};
+    rt.block_on(async {
+        let lsock = tokio::net::TcpSocket::new_v4().unwrap();
+        let _ = lsock.set_recv_buffer_size(4096);
+        lsock.bind("127.0.0.1:0".parse().unwrap()).unwrap();
+        let listener = lsock.listen(1).unwrap();
+        let addr = listener.local_addr().unwrap();
+        let (go_tx, go_rx) = tokio::sync::oneshot::channel::<()>();
+        let server = tokio::spawn(async move {
+            let (tcp, _) = listener.accept().await.unwrap();
+            let mut ws = tokio_tungstenite::accept_async(tcp).await.unwrap();
+            // do not read until the client says it has stalled (or finished)
+            let _ = tokio::time::timeout(Duration::from_secs(5), go_rx).await;
+            let mut got = vec![];
+            loop { match tokio::time::timeout(Duration::from_millis(1500), ws.next()).await { Ok(Some(Ok(Message::Binary(b)))) => got.push(b), Ok(Some(Ok(_))) => {}, _ => break } }
+            got
+        });
+        let csock = tokio::net::TcpSocket::new_v4().unwrap();
+        let _ = csock.set_send_buffer_size(4096);
+        let tcp = csock.connect(addr).await.unwrap();
+        let _ = tcp.set_nodelay(true);
+        let (ws, _) = tokio_tungstenite::client_async("ws://127.0.0.1/connect", MaybeTlsStream::Plain(tcp)).await.unwrap();
+        let mut f = AFramed::new(Box::new(WebsocketStream::from(ws)), Codec::new(mode_of(compressed)));
+        let mut want = vec![]; let mut waited = 0usize; let mut go = Some(go_tx);
+        for i in 0..n {
+            let p = Packet::Mst(Mst { reqi: RequestId((i % 255) as u8 + 1), msg: format!("message number {i} {}", "x".repeat(i % 40)) });
+            let Some(fr) = encode(compressed, &p) else { continue };
+            // a write that does not complete at once is waiting for the transport: let the server start reading
+            let mut w = Box::pin(f.write(p.clone()));
+            match tokio::time::timeout(Duration::from_millis(30), w.as_mut()).await {
+                Ok(Ok(())) => want.push(fr),
+                Ok(Err(_)) => break,
+                Err(_) => { waited += 1; if let Some(g) = go.take() { let _ = g.send(()); } match tokio::time::timeout(Duration::from_secs(5), w.as_mut()).await { Ok(Ok(())) => want.push(fr), _ => break } },
+            }
+        }
+        if let Some(g) = go.take() { let _ = g.send(()); }
+        // push out what the transport may still hold back, then go away
+        for _ in 0..40 { let t = Packet::Tiny(Tiny { reqi: RequestId(0), subt: TinyType::None }); if let Some(fr) = encode(compressed, &t) { if let Ok(Ok(())) = tokio::time::timeout(Duration::from_secs(3), f.write(t)).await { want.push(fr); } } tokio::time::sleep(Duration::from_millis(2)).await; }
+        tokio::time::sleep(Duration::from_millis(100)).await;
+        drop(f);
+        let got = server.await.unwrap_or_default();
+        (got, want, waited)
+    })
+}
+
 pub fn run(a: &Args) {
     let rt = crate::c08::io_runtime();
     if let Some(r) = &a.replay {
@@ -220,6 +269,12 @@ pub fn run(a: &Args) {
             let (tr, used) = adaptor_run(&rt, &script, &sz);
             let want = adaptor_expect(&script, &used);
             if tr == want { println!("PASS"); std::process::exit(0) } else { println!("FAIL adaptor chunks differ from the binary payloads\n got  {}\n want {}", &tr[..tr.len().min(300)], &want[..want.len().min(300)]); std::process::exit(1) }
+        }
+        if let Some(rest) = r.strip_prefix("backpressure ") {
+            let t: Vec<&str> = rest.split_whitespace().collect();
+            let (got, want, waited) = backpressure_case(&rt, t[0] == "C", t[1].parse().unwrap());
+            let m = got.len().min(want.len());
+            match (0..m).find(|i| got[*i] != want[*i]) { Some(pos) => { println!("FAIL [C20] {waited} writes waited; message #{pos} is {} but the frame is {}", hex(&got[pos]), hex(&want[pos])); std::process::exit(1) }, None => if got.len() > want.len() { println!("FAIL more messages than writes"); std::process::exit(1) } else { println!("PASS ({waited} writes waited, {m} messages compared)"); std::process::exit(0) } }
         }
         if let Some(rest) = r.strip_prefix("write ") {
             let (bins, others, want) = write_case(&rt, rest.trim() == "C", &crate::gen::kinds::default_packets());
@@ -281,6 +336,21 @@ pub fn run(a: &Args) {
         st.notes.push(format!("{name}: reads return {}", trace.join(" ")));
         if matches!(ending, Msg::Close) && trace != vec!["P0".to_string(), "DC".to_string()] { st.fail(format!("[C20] closure after a partial frame: got {:?}, want [P0, DC]", trace), "closure".into()); }
         if trace.first().map(|s| s.as_str()) != Some("P0") || trace.len() != 2 { st.fail(format!("[C20] {name}: got {:?}, want the first packet then one terminal result", trace), "closure".into()); }
+    }
+    // (c') writes under back-pressure (the peer is slow to read; small socket buffers)
+    for compressed in [true, false] {
+        let n = if a.thorough() { 30_000 } else { 6_000 };
+        let (got, want, waited) = backpressure_case(&rt, compressed, n);
+        st.evaluations += want.len() as u64; st.distinct_nontrivial += 1;
+        // the transport may legitimately still hold the very last messages when the client goes away: compare the common prefix,
+        // and require that nearly everything arrived
+        let m = got.len().min(want.len());
+        if let Some(pos) = (0..m).find(|i| got[*i] != want[*i]) {
+            st.fail(format!("[C20/C06 write] under back-pressure ({waited} writes had to wait) binary message #{pos} seen by the server is {} but the frame of write #{pos} is {}{}", hex(&got[pos]), hex(&want[pos]), if pos > 0 && got[pos] == want[pos - 1] { " (a second copy of the previous frame)" } else { "" }), format!("backpressure {} {n}", mode_tag(compressed)));
+        } else if got.len() > want.len() { st.fail(format!("[C20/C06 write] the server saw {} binary messages for {} writes", got.len(), want.len()), format!("backpressure {} {n}", mode_tag(compressed))); }
+        else if got.len() + 64 < want.len() { st.notes.push(format!("back-pressure run ({} mode): only {} of {} messages reached the server before the client went away", mode_tag(compressed), got.len(), want.len())); }
+        st.notes.push(format!("back-pressure run ({} mode): {} writes, {} had to wait for the transport, {} messages compared", mode_tag(compressed), want.len(), waited, m));
+        st.add("writes under back-pressure", want.len() as u64);
     }
     // (c) writes
     for compressed in [true, false] {
